@@ -46,7 +46,7 @@ def self_test(ctx: Ctx):
             "maps": [[1, 2, -1, 0], [2, 3, 4, 0, 1]]}
     b1 = dict(good, maps=[[0, 1, -1, 2], [2, 3, 4, 0, 1]])                   # unshifted positions reported for a shifted pattern
     b2 = dict(good, n2=[4, 5], maps=[[2, 3, 0, 1], [2, 3, 4, 0, 1]])          # even size although odd parity was requested
-    blk = {"k": "block", "raised": False, "n": [4, 4], "radius": [5, 4], "zeroed": [[-1, 0], [0, -1], [0, 0], [0, 1], [1, 0]], "others_unchanged": True}
+    blk = {"k": "block", "raised": False, "n": [4, 4], "radius_given": [1, 4], "margin": "default", "has_cutoff": True, "cutoff": [9, 4], "zeroed": [[-1, 0], [0, -1], [0, 0], [0, 1], [1, 0]], "others_unchanged": True}
     b3 = dict(blk, zeroed=[[0, 0], [0, 1], [1, 0]])
     res = ctx.validate("PatternTrace", [[good], [b1], [b2], [blk], [b3]], "PatternTrace.cfg")
     if not (res[0][0] and res[3][0]) or res[1][0] or res[2][0] or res[4][0]:
@@ -58,7 +58,7 @@ def self_test(ctx: Ctx):
 def run(ctx: Ctx):
     quick = ctx.tier == "quick"
     ctx.rule = ("scenarios = grid (8|9) x (8|9|12) x max_angle in {full, cutoff, valid, 0.55 max, 0.3 max} x parity in {same, odd, even} x "
-                "fftshift in {T, F}, enumerated by TLC; block_direct for radii {5/4, 9/4, 13/4} pixels x margin x layout x grid parities; "
+                "fftshift in {T, F}, enumerated by TLC; block_direct for radii {5/4, 9/4, 13/4 pixels, left to the metadata} x margin {True, False, default} x semiangle cutoff in the metadata or not x layout x grid parities; "
                 "eager and lazy; non-trivial = every scenario")
     r = ctx.design_check("PatternModel", cfg_text=CFG.format(n=9 if quick else 14), label="PatternModel=>Pattern", workers=1, timeout=3000)
     self_test(ctx)
@@ -70,10 +70,11 @@ def run(ctx: Ctx):
         ctx.case(json.dumps(c, sort_keys=True))
     for n in ((8, 8), (9, 9), (8, 9), (9, 12)):
         for shifted in (True, False):
-            for rq in ([5, 4], [9, 4], [13, 4]):
-                for margin in (False, True):
-                    evs.append(block_event(n, shifted, rq, margin, lazy=(rq[0] == 9)))
-                    ctx.case(("block", n, shifted, tuple(rq), margin))
+            for rq in ([5, 4], [9, 4], [13, 4], None):
+                for margin in ("false", "true", "default"):
+                    for has_cutoff in (False, True):
+                        evs.append(block_event(n, shifted, rq, margin, lazy=(rq is not None and rq[0] == 9), has_cutoff=has_cutoff))
+                        ctx.case(("block", n, shifted, tuple(rq or ()), margin, has_cutoff))
     ctx.exhaustive = True
     for e in evs[:1] + evs[-1:]:
         ctx.sample(e)
@@ -85,9 +86,8 @@ def replay(ctx: Ctx, case):
     if e["k"] == "crop":
         ev = crop_event(e["case"], e.get("lazy", False))
     else:
-        from fractions import Fraction
-        r = Fraction(e["radius"][0], e["radius"][1]) - (1 if e["margin"] else 0)
-        ev = block_event(tuple(e["n"]), e["shifted"], [r.numerator, r.denominator], e["margin"], e.get("lazy", False))
+        ev = block_event(tuple(e["n"]), e["shifted"], e["radius_given"] or None, e["margin"], e.get("lazy", False), has_cutoff=e["has_cutoff"],
+                         cutoff_q=tuple(e["cutoff"]))
     ctx.case("replay")
     ctx.sample(ev)
     judge(ctx, [ev])
